@@ -42,10 +42,10 @@ def run(ctx):
     ctx.rule('C06.c-passthrough', 'errors of callees are propagated by bare `?` / tail return, never re-mapped')
     for cfg in cfgs:
         facts = ctx.facts(cfg)
-        check_taint(ctx, facts, cfg)
+        ctx.guard('C06.analysable', check_taint, ctx, facts, cfg)
         if cfg == cfgs[0]:
-            check_truthful(ctx, facts, cfg)
-            check_passthrough(ctx, facts, cfg)
+            ctx.guard('C06.analysable', check_truthful, ctx, facts, cfg)
+            ctx.guard('C06.analysable', check_passthrough, ctx, facts, cfg)
 
 
 # ------------------------------------------------------------------------------ (a)
